@@ -83,15 +83,29 @@ def lean_build(targets):
     return rc == 0, out
 
 
+def lean_module_closure(modules):
+    """the given modules and every module of this project they import, transitively (paths of the sources)"""
+    seen, todo, paths = set(), list(modules) + ["Driver.Main"], []
+    while todo:
+        m = todo.pop()
+        if m in seen:
+            continue
+        seen.add(m)
+        p = os.path.join(LEAN, *m.split(".")) + ".lean"
+        if not os.path.exists(p):
+            continue
+        paths.append(p)
+        for mm in re.finditer(r"^\s*(?:public\s+|private\s+)?import\s+(?:all\s+)?([A-Za-z0-9_.]+)", open(p, encoding="utf-8").read(), flags=re.M):
+            if mm.group(1).split(".")[0] in ("H5V", "Driver"):
+                todo.append(mm.group(1))
+    return sorted(paths)
+
+
 def lean_scan_forbidden(modules):
-    """scan the sources of the given modules (and everything under H5V/ they could import) for
-    forbidden tokens outside comments"""
+    """scan the sources of the given modules and of everything in this project they import (transitively; the model
+    driver included) for forbidden tokens outside comments"""
     hits = []
-    for dirpath, _, files in os.walk(os.path.join(LEAN, "H5V")):
-        for fn in files:
-            if not fn.endswith(".lean"):
-                continue
-            p = os.path.join(dirpath, fn)
+    for p in lean_module_closure(modules):
             src = open(p, encoding="utf-8").read()
             # strip block comments (non-nested approximation, applied repeatedly) and line comments
             prev = None
